@@ -325,6 +325,8 @@ def real_side(exe, stub, n0, acc, opts):
             kind, fields = t[3], t[4:]
             defs.append((int(t[1]), canon_def(';'.join([t[1], t[2], kind] + fields))))
             defined.add(int(t[1]))
+    # fixed variables without a definition: MakeFixedVar constants (continuous) and the results of removed definitions (and fixed true /
+    # or fixed false: FixUnusedDefinedVars leaves 0..0, integer); both appear as `res;Const;value` (the type is compared in |V|)
     consts = {i: v[0] for i, v in enumerate(vsA) if i >= n0 and i not in defined and v[0] is not None and v[0] == v[1]}
     out['D'] = [t for _, t in sorted(defs)]
     out['consts'] = consts
@@ -583,7 +585,7 @@ def run_refconv(ck, drv, exe, n_models, seed_base, wd, log=None):
             fs['enforced'] += 1
             if c['kind'] == 'refusal' or real_ref:
                 st['ref_refusal'] += c['kind'] == 'refusal'
-                want = {'refusal IndicatorInfBound': 'bigM-unbounded'}.get(c.get('what'))
+                want = {'refusal IndicatorInfBound': 'bigM-unbounded', 'refusal infeasible': 'infeasible-claimed'}.get(c.get('what'))
                 if c['kind'] == 'refusal' and real_ref and (want is None or real_kind == want):
                     st['refusal_agree'] += 1
                     fs['agree'] += 1
